@@ -287,7 +287,13 @@ func (c *Client) Create(ctx context.Context, obj client.Object, opts ...client.C
 		return err
 	}
 	return c.write(ctx, "Create", obj, dry, map[string]any{"body": c.proj(body)},
-		func(st *Store, k Key, ki KindInfo) (map[string]any, error) { return st.create(k, ki, body, dry) })
+		func(st *Store, k Key, ki KindInfo) (map[string]any, error) {
+			res, err := st.create(k, ki, body, dry)
+			if err == nil && !dry && st.LagCreates && k.Group == pkoGroup && passFrom(ctx) != nil {
+				st.Invisible[k] = true
+			}
+			return res, err
+		})
 }
 
 func (c *Client) Update(ctx context.Context, obj client.Object, opts ...client.UpdateOption) error {
